@@ -82,22 +82,42 @@ def _hdr_items (repo, cls, f):
   def leading (e):
     while isinstance(e, ast.BinOp) and isinstance(e.op, ast.Add): e = e.left
     return e
-  cand = None
+  def terms (e):
+    if isinstance(e, ast.BinOp) and isinstance(e.op, ast.Add): return terms(e.left) + terms(e.right)
+    return [e]
+  def as_pack (e):
+    if isinstance(e, ast.Call) and e in packs: return e
+    if isinstance(e, ast.Name):
+      defs_ = [v for v, st, k in q.reaching_assign(f.node, e.id) if k == 'assign']
+      if len(defs_) == 1 and defs_[0] is not None:
+        ts = terms(defs_[0])
+        if len(ts) == 1 and isinstance(ts[0], ast.Call) and ts[0] in packs: return ts[0]
+    return None
+  seq = []
   for r in rets:
-    lead = leading(r.value)
-    if isinstance(lead, ast.Call) and lead in packs: cand = lead
-    elif isinstance(lead, ast.Name):
-      defs_ = [v for v, st, k in q.reaching_assign(f.node, lead.id) if k == 'assign']
-      for d in defs_:
-        ld = leading(d) if d is not None else None
-        if isinstance(ld, ast.Call) and ld in packs: cand = ld
-  if cand is None: cand = packs[-1]
-  fmt = repo.try_const(mod, cand.args[0], cls)
-  if not isinstance(fmt, str): return None, None, None
-  fields, size = _fmt_layout(fmt)
-  args = list(cand.args[1:])
-  if len(args) != len(fields): return None, None, None
-  return [(off, w, code, _name(a), a) for (off, w, code), a in zip(fields, args)], size, cand
+    ts = terms(r.value)
+    # a returned name defined as a concatenation: expand once
+    if len(ts) >= 1 and isinstance(ts[0], ast.Name) and as_pack(ts[0]) is None:
+      defs_ = [v for v, st, k in q.reaching_assign(f.node, ts[0].id) if k == 'assign']
+      if len(defs_) == 1 and defs_[0] is not None: ts = terms(defs_[0]) + ts[1:]
+    cur = []
+    for t_ in ts:
+      pc = as_pack(t_)
+      if pc is None: break
+      cur.append(pc)
+    if cur and len(cur) >= len(seq): seq = cur
+  if not seq: seq = [packs[-1]]
+  out = []; base = 0
+  for pc in seq:
+    fmt = repo.try_const(mod, pc.args[0], cls)
+    if not isinstance(fmt, str): return None, None, None
+    if out and fmt[:1] not in '!><=@' + ''.join([]): pass
+    fields, size = _fmt_layout(fmt)
+    args = list(pc.args[1:])
+    if len(args) != len(fields): return None, None, None
+    out += [(base + off, w, code, _name(a), a) for (off, w, code), a in zip(fields, args)]
+    base += size
+  return out, base, seq[0]
 
 def run (ctx):
   ctx.explanation = EXPLAIN
@@ -109,6 +129,7 @@ def run (ctx):
   for mod in mods:
     for cls in mod.classes.values():
       pf = cls.methods.get('parse'); hf = cls.methods.get('hdr')
+      if hf is None and pf is not None and 'pack' in cls.methods and mod.name.endswith('.lldp'): hf = cls.methods.get('pack')      # TLV classes: parse()/pack() pairs
       if pf is None or hf is None: continue
       P = _parse_items(repo, cls, pf)
       H, hsize, hcall = _hdr_items(repo, cls, hf)
@@ -141,6 +162,18 @@ def run (ctx):
         ctx.ob('R-LAYOUT', cls.qual, "parse() and hdr() agree on the fixed header size", pmax == hsize, "%d bytes" % hsize if pmax == hsize else
                "parse() reads a %d byte header, hdr() writes %d bytes" % (pmax, hsize), (mod, hcall), 'D1') if pmax == hsize or len(H) == len(Pf) else None
       # ---- D2 bit-fields -------------------------------------------------------------------------
+      # item boundaries: parse() and the serialiser cut the fixed header at the same places (a 16-bit composite read as
+      # two bytes - or the reverse - silently drops the bits that straddle the byte boundary)
+      pb = sorted(set((o, w) for o, w, c_, n_, t_, s_ in Pf if c_ != 's'))
+      hb = sorted(set((o, w) for o, w, c_, n_, a_ in H if c_ not in ('s', 'x')))
+      common_end = min(max([o + w for o, w in pb] or [0]), max([o + w for o, w in hb] or [0]))
+      pbc = [x for x in pb if x[0] + x[1] <= common_end]; hbc = [x for x in hb if x[0] + x[1] <= common_end]
+      covered = lambda items, o, w: any(io <= o and o + w <= io + iw for io, iw in items)
+      cut = [(o, w) for o, w in pbc if not (o, w) in hbc and covered(hbc, o, w)] + [(o, w) for o, w in hbc if not (o, w) in pbc and covered(pbc, o, w)]
+      if pbc and hbc:
+        ctx.ob('R-LAYOUT', cls.qual, "parse and serialiser cut the fixed header into the same items", not cut,
+               "%d items" % len(pbc) if not cut else
+               "one side handles bytes %s as separate items that the other side treats as one wider field: bits that straddle the boundary (e.g. the 9-bit TLV length) are lost on that side" % cut, cls, 'D1')
       n_bf += _bitfields(ctx, repo, mod, cls, pf, hf, Pf, H, hcall)
       # ---- D3 derived fields ---------------------------------------------------------------------
       _derived(ctx, repo, mod, cls, hf, H, hcall)
@@ -148,6 +181,22 @@ def run (ctx):
       for f in (pf, hf):
         for cf in btypes.conflicts(f.node, assume={'raw': btypes.B, 'payload': btypes.B}):
           ctx.bad('R-BYTES', f, "`%s`" % cf.text[:60], "%s of %s and %s" % (cf.kind, cf.left, cf.right), (mod, cf.node), 'D5')
+  # ---- the pseudo-header is taken from self.prev: attaching a payload must (re)link it to its new carrier ----------
+  pbm = repo.mod('lib.packet.packet_base'); pbc_ = pbm.classes.get('packet_base')
+  sp = pbc_.methods.get('set_payload') if pbc_ is not None else None
+  if sp is None: raise AnalysisError("packet_base.set_payload vanished")
+  ctx.analysed(sp); gsp = q.cfg_of(sp); pp_ = sp.params[1]
+  is_pb = lambda e: isinstance(e, ast.Call) and call_name(e) == 'isinstance' and len(e.args) == 2 and 'packet_base' in norm(e.args[1])
+  links = [q.enclosing_stmt_node(gsp, st) for t, v, st, k in q.stores_in(sp.node) if isinstance(t, ast.Attribute) and t.attr == 'prev' and norm(t.value) == pp_ and v is not None and norm(v) == 'self']
+  ctx.floor('set_payload: back-link site', len(links), 1)
+  # every path on which the payload is a packet object passes the back-link, whatever it was linked to before
+  for prev_state in (None, '<old carrier>'):
+    env = q.Env({pp_ + '.prev': prev_state}, [(is_pb, True)])
+    holds, r_ = q.must_pass_under(repo, pbm, gsp, env, links, pbc_, cp=True)
+    ctx.ob('R-EFFECT', sp, "attaching a packet payload links it back to its new carrier (payload.prev %s before)" % ('unset' if prev_state is None else 'set'), holds,
+           "payload.prev = self on every such path" if holds else
+           "when the payload already has a `prev` (it was parsed from, or built under, another header) it keeps pointing at the old carrier: UDP/TCP/ICMPv6 checksums are then computed over the "
+           "old header's addresses - the emitted segment's checksum is wrong for the header actually sent", sp, 'D3')
   # ---- D5 over every build method of the packet library -------------------------------------------------
   n_build = 0
   for mod in mods:
